@@ -33,17 +33,33 @@ var Kits = map[ecc.ID]*Kit{}
 
 func Register(k *Kit) { Kits[k.Curve] = k }
 
-// Curves returns the curves to run for a tier.
+// Curves returns the curves to run: always all seven (the per-curve backends are separately
+// generated files, a defect may sit in one of them only).
 func Curves(quick bool) []ecc.ID {
-	if quick {
-		return []ecc.ID{ecc.BN254, ecc.BLS12_377, ecc.BW6_761}
-	}
 	ids := make([]ecc.ID, 0, len(Kits))
 	for id := range Kits {
 		ids = append(ids, id)
 	}
 	sort.Slice(ids, func(i, j int) bool { return ids[i] < ids[j] })
 	return ids
+}
+
+// CasesFor trims the catalogue in the quick tier: full on bn254, `n` representative circuits
+// (no commitment, two commitments, no public input, ...) on the six other curves.
+func CasesFor(id ecc.ID, quick bool, cases []Case, n int) []Case {
+	if !quick || id == ecc.BN254 {
+		return cases
+	}
+	pref := []string{"commit-two", "cubic-1pub", "zero-pub", "commit-public", "two-pub"}
+	var out []Case
+	for _, name := range pref {
+		for _, c := range cases {
+			if c.Name == name && len(out) < n {
+				out = append(out, c)
+			}
+		}
+	}
+	return out
 }
 
 func Big(v ...int64) []*big.Int {
